@@ -40,18 +40,102 @@ KERNEL_OP = {
 }
 
 
+# njit kernels that are not behind lazycompile but are still first compiled on first use
+NJIT_FIRST_USE = {"gammastd_yxt": ("spi", lambda scn: scn["params"].get("groups") is None)}
+KERNEL_OP.update({k: v[0] for k, v in NJIT_FIRST_USE.items()})
+
+
 def find_scenario(seed, kernel):
     op = KERNEL_OP[kernel]
     for i in range(500):
         scn = S.gen_scenario(random.Random(f"{seed}/D/{kernel}/{i}"), ops=[op])
-        if kernel in S.kernels_of(scn):
+        if kernel in NJIT_FIRST_USE:
+            if NJIT_FIRST_USE[kernel][1](scn):
+                return scn
+        elif kernel in S.kernels_of(scn):
             return scn
     raise RuntimeError(f"no scenario reaches {kernel}")
 
 
-def race(kernel, seed, n_threads):
+def stall_numba_extension_init(seconds, gate=None):
+    """Fault: hdc-algo's numba extension initialiser (registered as a ``numba_extensions`` entry
+    point and run by numba on the first compilation in a process) is slow / stalled.
+
+    ``gate``: optional callable returning True when the stalled initialiser may go on (used for
+    njit first-use races: the initialising thread is held until the other racing threads have
+    finished their own first call, or ``seconds`` have passed).  Sound: a slow initialiser cannot
+    change results on a correct tree.  Returns an undo function."""
+    import importlib
+
+    try:
+        mod = importlib.import_module("hdc.algo.vendor.numba_scipy")
+        orig = mod._init_extension
+    except Exception:  # noqa: BLE001
+        return lambda: None
+
+    def slow_init(*a, **k):
+        if gate is None:
+            time.sleep(seconds)
+        else:
+            t0 = time.monotonic()
+            while not gate() and time.monotonic() - t0 < seconds:
+                time.sleep(0.02)
+        r = orig(*a, **k)
+        return r
+
+    mod._init_extension = slow_init
+    return lambda: setattr(mod, "_init_extension", orig)
+
+
+def norm_digest(norm):
+    import hashlib
+
+    import numpy as np
+
+    if isinstance(norm, str):
+        return norm
+    h = hashlib.sha1()
+    for k in sorted(norm):
+        v = norm[k]
+        h.update(repr((k, v["dims"], v["dtype"], v["shape"])).encode())
+        h.update(np.ascontiguousarray(v["values"]).tobytes() if v["values"].dtype != object else repr(v["values"].tolist()).encode())
+        for cn in sorted(v["coords"]):
+            cd, cv = v["coords"][cn]
+            h.update(repr((cn, cd, str(cv.dtype))).encode())
+            h.update(np.ascontiguousarray(cv).tobytes() if cv.dtype != object else repr(cv.tolist()).encode())
+    return h.hexdigest()
+
+
+def fresh_reference_process(kernel, seed):
+    """The same first call, single-threaded, in a fresh interpreter (started alongside the race)."""
+    import os
+    import subprocess
+    import sys
+
+    env = dict(os.environ)
+    env["PYTHONHASHSEED"] = "0"
+    code = (
+        "import sys; sys.path.insert(0, %r); sys.path.insert(0, %r)\n"
+        "from sim import runner, realrace\n"
+        "runner.install_seams()\n"
+        "print('REF ' + realrace.single_call_digest(%r, %d))\n" % (driver.VERIF, driver.repo_dir(), kernel, seed)
+    )
+    return subprocess.Popen([sys.executable, "-c", code], env=env, stdout=subprocess.PIPE, stderr=subprocess.PIPE, text=True)
+
+
+def single_call_digest(kernel, seed):
+    scn = find_scenario(seed, kernel)
+    cube = S.build_cube(scn)
+    try:
+        return norm_digest(S.normalise(S.apply_op(scn, cube, lazy=False)))
+    except Exception as e:  # noqa: BLE001
+        return "RAISES"
+
+
+def race(kernel, seed, n_threads, fresh_ref=True):
     """Returns list of (class, message)."""
     viol = []
+    refproc = fresh_reference_process(kernel, seed) if (fresh_ref and kernel != "ws2doptvplc_tyx") else None
     if kernel == "ws2doptvplc_tyx":
         from . import prange
 
@@ -77,6 +161,12 @@ def race(kernel, seed, n_threads):
 
     barrier = threading.Barrier(n_threads)
     results = [None] * n_threads
+    if kernel in NJIT_FIRST_USE:
+        # njit dispatchers run numba's extension initialisation outside the compiler lock: hold the
+        # initialising thread until every other racing thread has finished its first call
+        undo_stall = stall_numba_extension_init(60.0, gate=lambda: sum(r is not None for r in results) >= n_threads - 1)
+    else:
+        undo_stall = stall_numba_extension_init(0.25)
 
     def t(i):
         barrier.wait()
@@ -93,6 +183,7 @@ def race(kernel, seed, n_threads):
         if th.is_alive():
             viol.append(("first-use-race-hangs", f"{kernel}: a thread did not return from the first call within 600 s"))
             return viol
+    undo_stall()
     try:
         ref = call()
     except Exception as e:  # noqa: BLE001
@@ -100,6 +191,22 @@ def race(kernel, seed, n_threads):
         ref_exc = e
     else:
         ref_exc = None
+    # oracle 2: a never-raced, single-threaded first use in a fresh interpreter
+    if refproc is not None:
+        try:
+            so, se = refproc.communicate(timeout=900)
+            line = [l for l in so.splitlines() if l.startswith("REF ")]
+            fresh = line[0][4:] if line else None
+        except Exception:  # noqa: BLE001
+            refproc.kill()
+            fresh = None
+        if fresh is not None:
+            for i, (res, exc) in enumerate(results):
+                got = "RAISES" if exc is not None else norm_digest(res)
+                if got != fresh:
+                    what = f"raised {type(exc).__name__}: {str(exc)[:160]}" if exc is not None else "returned a different result"
+                    viol.append(("first-use-race-raises" if exc is not None else "first-use-race-differs", f"{kernel}: racing thread {i} {what}, while a single-threaded first call in a fresh process {'raises' if fresh == 'RAISES' else 'succeeds'}"))
+                    break
     for i, (res, exc) in enumerate(results):
         if ref_exc is not None:
             if exc is None:
